@@ -220,6 +220,21 @@ pub(super) fn truncate_utf8(bytes: &[u8], max_bytes: usize) -> (String, bool, us
     )
 }
 
+/// Length of a trailing UTF-8 sequence that is valid so far but incomplete (0 when `bytes` ends on a
+/// character boundary or in an invalid sequence).
+pub(super) fn incomplete_utf8_tail(bytes: &[u8]) -> usize {
+    let start = bytes.len().saturating_sub(3);
+    for i in (start..bytes.len()).rev() {
+        if bytes[i] & 0xC0 != 0x80 {
+            return match std::str::from_utf8(&bytes[i..]) {
+                Err(err) if err.error_len().is_none() => bytes.len() - i,
+                _ => 0,
+            };
+        }
+    }
+    0
+}
+
 pub(super) fn resolve_path(root: &Path, raw: &str) -> Result<PathBuf, String> {
     let path = PathBuf::from(raw);
     if path.is_absolute() {
@@ -275,8 +290,16 @@ pub(super) fn read_artifact_range(
         .map_err(|err| format!("read artifact failed: {err}"))?;
     buf.truncate(read_bytes);
 
+    let more_follows = (offset_bytes + read_bytes as u64) < total_bytes;
+    if more_follows {
+        // a page must not end inside a character: the next page starts with the rest of it
+        let tail = incomplete_utf8_tail(&buf);
+        if tail < buf.len() {
+            buf.truncate(buf.len() - tail);
+        }
+    }
     let (content, utf8_truncated, used_bytes) = truncate_utf8(&buf, max_bytes);
-    let truncated = utf8_truncated || (offset_bytes + read_bytes as u64) < total_bytes;
+    let truncated = utf8_truncated || more_follows;
     Ok((content, used_bytes, total_bytes, truncated))
 }
 
